@@ -20,6 +20,15 @@
  *  - clients that stop reading (hold / drain) so that a connection keeps a
  *    response queued over several rounds
  *  - LeakSanitizer check at every case boundary (`leak` line)
+ *  - interim "102 Processing" replies (`req <c> <kind> <rid> <pre>...`: every handler call answers with the next
+ *    <pre> response and status 102, then the final one), malformed requests (`req <c> bad 0`: the daemon's own
+ *    error response), MHD_queue_response on a suspended connection from outside the handler (`ext-queue`)
+ *  - addresses 100..199 are the IPv4-mapped IPv6 forms (keys of their own in the per-address tree); the tree is
+ *    printed as a sorted map
+ *  - cfg listen=1|2: a real listen socket (IPv4 / dual stack); `arrive` connects a TCP client from 127.0.0.<a>
+ *    and calls MHD_accept_connection(); accept4() interposed (`accept-fail <errno-name>`)
+ *  - pthread_create() interposed (`thread-fail <k>`: the k-th creation from now fails), `threads` = live threads;
+ *    in the thread modes `settle` waits for the scripted events and a quiet period instead of sleeping
  *  - every script line is answered by its event lines followed by `--`
  *
  * No address, fd number or pointer is ever printed.
@@ -31,6 +40,7 @@
 #include <sys/syscall.h>
 #include <sys/un.h>
 #include <sys/epoll.h>
+#include <poll.h>
 #include <signal.h>
 #include <stdarg.h>
 #include <search.h>
@@ -64,7 +74,7 @@ static struct MHD_Daemon *hd;
 struct hconn {
   int used, cfd, addr, cport, verdict;
   int sfd, sfd_open, sfd_closed_n;   /* server side of the socketpair */
-  int started, closed_n;
+  int started, closed_n, added_ok;
   int nodrain, eof_seen, epoll_added;
   int nreq_sent, nreq_seen;
   char beh[8][12]; int behrid[8];    /* behaviour per request: reply|replyc|suspend|upgrade|bad */
@@ -77,8 +87,9 @@ static struct hconn hc[MAXC];
 struct hresp { int used; char kind[16]; size_t size; struct MHD_Response *obj; int freed; char *buf; };
 static struct hresp hr[MAXRESP];
 
+static volatile unsigned long ev_counter;   /* every logged event (any thread) */
 static void out (const char *fmt, ...)
-{ va_list ap; flockfile (stdout); va_start (ap, fmt); vprintf (fmt, ap); va_end (ap); putchar ('\n'); funlockfile (stdout); }
+{ va_list ap; __atomic_add_fetch (&ev_counter, 1, __ATOMIC_SEQ_CST); flockfile (stdout); va_start (ap, fmt); vprintf (fmt, ap); va_end (ap); putchar ('\n'); funlockfile (stdout); }
 
 /* ------------------------------------------------- allocation failure */
 void *__real_malloc (size_t n);
@@ -142,6 +153,7 @@ static int close_locked (int fd)
     if (hc[c].used && hc[c].sfd_open && hc[c].sfd == fd)
     {
       hc[c].sfd_open = 0; hc[c].sfd_closed_n++;
+      __atomic_add_fetch (&ev_counter, 1, __ATOMIC_SEQ_CST);
       printf ("fd-close c=%d\n", c);
       if (devnull >= 0 && nparked < MAXC * 2 && fd == dup2 (devnull, fd)) { parked[nparked++] = fd; return 0; }
       break;
@@ -169,18 +181,39 @@ int epoll_ctl (int epfd, int op, int fd, struct epoll_event *ev)
 
 /* ------------------------------------------------- accept4 on the real listen socket */
 static int acc_fail_n, acc_errno; static const char *acc_name = "";
+static int listen_cur = -1;   /* the scripted client whose accept is in progress (the accept is driven synchronously) */
+/* source address (127.0.0.x, also as IPv4-mapped IPv6) and port of a peer; 0 if it is neither */
+static int peer_id (const struct sockaddr *addr, unsigned *host, unsigned *port)
+{
+  if (NULL == addr) return 0;
+  if (AF_INET == addr->sa_family)
+  { const struct sockaddr_in *a = (const struct sockaddr_in *) addr; *host = ntohl (a->sin_addr.s_addr) & 0xffu; *port = ntohs (a->sin_port); return 1; }
+  if (AF_INET6 == addr->sa_family)
+  { const struct sockaddr_in6 *a = (const struct sockaddr_in6 *) addr; *host = a->sin6_addr.s6_addr[15]; *port = ntohs (a->sin6_port); return 1; }
+  return 0;
+}
+/* the scripted client behind a peer address: the one being accepted right now if address AND port agree (an
+   ephemeral port number alone is not an identity: closed clients' ports are handed out again at once) */
+static int client_of_peer (const struct sockaddr *addr)
+{
+  unsigned host = 0, port = 0; int c = listen_cur;
+  if (! peer_id (addr, &host, &port)) return -1;
+  if (c >= 0 && c < MAXC && hc[c].used && hc[c].cport == (int) port && (unsigned) (hc[c].addr % 100) == host) return c;
+  return -1;
+}
 int accept4 (int fd, struct sockaddr *addr, socklen_t *alen, int flags)
 {
-  int r, c; unsigned port = 0;
+  int r, c;
+  /* an injected failure happens before the kernel is asked: the backlog is not touched (and it is empty: every
+     scripted client is accepted in its own `arrive` line) */
   if (acc_fail_n > 0) { acc_fail_n--; out ("accept-failed %s", acc_name); errno = acc_errno; return -1; }
   r = (int) syscall (SYS_accept4, fd, addr, alen, flags);
-  if (r < 0 || NULL == addr) return r;
-  if (AF_INET == addr->sa_family) port = ntohs (((struct sockaddr_in *) addr)->sin_port);
-  else if (AF_INET6 == addr->sa_family) port = ntohs (((struct sockaddr_in6 *) addr)->sin6_port);
+  if (r < 0) return r;
+  c = client_of_peer (addr);
+  if (c < 0 || hc[c].sfd_open || 0 != hc[c].sfd_closed_n)
+  { out ("fault accepted-a-connection-the-script-did-not-expect"); return r; }
   pthread_mutex_lock (&fd_mx);
-  for (c = 0; c < MAXC; c++)
-    if (hc[c].used && hc[c].cport == (int) port && ! hc[c].sfd_open && 0 == hc[c].sfd_closed_n)
-    { hc[c].sfd = r; hc[c].sfd_open = 1; break; }
+  hc[c].sfd = r; hc[c].sfd_open = 1;
   pthread_mutex_unlock (&fd_mx);
   return r;
 }
@@ -284,13 +317,10 @@ static enum MHD_Result policy_cb (void *cls, const struct sockaddr *addr, sockle
   int c = cur[0], v = cur[1];
   APP_ENTER;
   (void) addrlen;
-  if (hcfg.listen && NULL != addr)
-  { /* accepted from the listen socket: the peer's port identifies the scripted client */
-    unsigned port = AF_INET == addr->sa_family ? ntohs (((const struct sockaddr_in *) addr)->sin_port)
-                    : AF_INET6 == addr->sa_family ? ntohs (((const struct sockaddr_in6 *) addr)->sin6_port) : 0;
-    for (c = 0; c < MAXC; c++) if (hc[c].used && hc[c].cport == (int) port) break;
-    v = c < MAXC ? hc[c].verdict : 1;
-    if (c >= MAXC) c = -1;
+  if (hcfg.listen)
+  { /* accepted from the listen socket: source address and port must be those of the client being accepted */
+    c = client_of_peer (addr);
+    v = c >= 0 ? hc[c].verdict : 1;
   }
   out ("policy c=%d -> %d", c, v);
   APP_LEAVE;
@@ -594,9 +624,17 @@ int main (void)
         fcntl (fd, F_SETFL, fcntl (fd, F_GETFL) | O_NONBLOCK);
         hc[a].used = 1; hc[a].cfd = fd; hc[a].sfd = -1; hc[a].sfd_open = 0; hc[a].addr = (int) b; hc[a].nodrain = 0;
         hc[a].cport = ntohs (me.sin_port); hc[a].verdict = (int) (p != 0);
+        { /* connect() has returned, but the last step of the handshake is delivered to the listener by the kernel's
+             own (possibly deferred) processing: wait for the event "listen socket readable", not for time */
+          struct pollfd pf; int tries = 0; pf.fd = hd->listen_fd; pf.events = POLLIN; pf.revents = 0;
+          while (1 != poll (&pf, 1, 1000) && ++tries < 30) pf.revents = 0;
+          if (0 == (pf.revents & POLLIN)) out ("fault connection-never-reached-the-listen-queue");
+        }
+        listen_cur = (int) a;
         in_add = 1;
         LIB (q = MHD_accept_connection (hd));
         in_add = 0;
+        listen_cur = -1;
         report_fired ();
         /* MHD_accept_connection reports only whether accept() worked: the admission result is whether the socket survived */
         out ("arrive c=%d -> %d", (int) a, (int) (MHD_YES == q && hc[a].sfd_open));
@@ -614,6 +652,7 @@ int main (void)
       else
       {
         acc_fail_n = 1;
+        listen_cur = -1;
         LIB (q = MHD_accept_connection (hd));
         acc_fail_n = 0;
         if (MHD_NO != q) out ("fault accept-failure-reported-as-success");
@@ -646,6 +685,7 @@ int main (void)
         LIB (q = MHD_add_connection (hd, sv[1], &u.sa, alen));
         in_add = 0;
         report_fired ();
+        hc[a].added_ok = (MHD_YES == q);
         out ("arrive c=%d -> %d", (int) a, (int) q);
         report ();
       }
@@ -669,6 +709,26 @@ int main (void)
     else if (! strcmp (op, "hold") && l.n >= 2 && lp_u64 (l.w[1], &a) && a < MAXC) { hc[a].nodrain = 1; out ("ok"); }
     else if (! strcmp (op, "drain") && l.n >= 2 && lp_u64 (l.w[1], &a) && a < MAXC) { hc[a].nodrain = 0; out ("ok"); }
     else if (! strcmp (op, "round")) { one_round (); report_fired (); report (); }
+    else if (! strcmp (op, "settle") && threaded ())
+    { /* the daemon's threads run on their own: wait for what the script has asked for (admission or refusal of every
+         added connection, the handler for every request sent, the disposal of every connection whose client has
+         gone), then for a quiet period; bounded, so a daemon that never gets there is reported by the oracle */
+      unsigned long seen = ev_counter; int quiet = 0;
+      for (i = 0; i < 1500 && quiet < 20; i++)
+      {
+        int c, pend = 0;
+        usleep (2000); drain_clients ();
+        for (c = 0; c < MAXC && ! pend; c++)
+        {
+          if (! hc[c].used || ! hc[c].sfd_open) continue;
+          if (hc[c].added_ok && ! hc[c].started) pend = 1;
+          else if (hc[c].cfd < 0 && ! hc[c].upgraded && ! (hc[c].mc && hc[c].mc->suspended)) pend = 1;
+          else if (hc[c].cfd >= 0 && hc[c].nreq_seen < hc[c].nreq_sent) pend = 1;
+        }
+        if (pend || seen != ev_counter) { quiet = 0; seen = ev_counter; } else quiet++;
+      }
+      report_fired (); report ();
+    }
     else if (! strcmp (op, "settle"))
     { for (i = 0; i < SETTLE_ROUNDS; i++) { one_round (); drain_clients (); } report_fired (); report (); }
     else if (! strcmp (op, "query")) report ();
